@@ -2,6 +2,11 @@
 
 package schema
 
+import (
+	"strconv"
+	"strings"
+)
+
 // C12: the OPL parser is total.
 
 // verifC12Alphabet restricts a symbolic byte to the alphabet selected by the
@@ -184,5 +189,37 @@ func HarnessC12ParserTokens() {
 	if len(errs) == 0 {
 		verifCover("c12.tokens.accepted")
 		_ = ns
+	}
+}
+
+// ---------------------------------------------------------------------------
+// pumped inputs: one lexeme repeated many times (pathological nesting, runs of
+// punctuation longer than the lexer's item buffer, unterminated openers), with
+// and without a class prefix; concrete text through the real lexer and parser.
+
+var verifC12Lexemes = []string{
+	"(", ")", "[", "]", "{", "}", "<", ">", "=", ",", ";", "|", "!", ":", ".", "=>", "||", "&&", "/", "*", "\"", "'",
+	"a", "class", "this", "ctx", "related", "\"s\"", "'s'", "//c\n", "/*c*/", "/*", "\xff", "é", "0", "\\",
+	"!(", "a.", "a:", "a,", "a:a[]", "(a)=>", "this.related.a.includes(ctx.subject)||", "!this.related.a.includes(ctx.subject)&&",
+}
+
+func HarnessC12Pump() {
+	lex := verifC12Lexemes[verifChoice(len(verifC12Lexemes))]
+	k := []int{19, 20, 21, 22, 41, 64}[verifChoice(6)]
+	sep := []string{"", " ", "\n"}[verifChoice(3)]
+	pre := []string{"", "class A implements Namespace {", "class A implements Namespace { related: { a: A[] } permits = { p: (ctx) => "}[verifChoice(3)]
+	post := []string{"", "}", "this.related.a.includes(ctx.subject)" + strings.Repeat(")", k) + " } }"}[verifChoice(3)]
+	s := pre
+	for i := 0; i < k; i++ {
+		s += lex + sep
+	}
+	s += post
+	verifNote("input: " + pre + " [" + lex + sep + "] x " + strconv.Itoa(k) + " " + post)
+	steps0 := verifSteps()
+	_, errs := Parse(s)
+	verifReach("c12.pump.returned")
+	verifAssert(verifSteps()-steps0 <= 6000*(len(s)+1), "C12 parse: more than 6000*(n+1) interpreter steps")
+	if len(errs) > 0 {
+		verifC12CheckErrors(s, errs)
 	}
 }
